@@ -9,7 +9,11 @@
 //	reopen 0|1            Close, then OpenStore with the same options (1: bucket snapshot deleted first)
 //	rebits N              Close, then OpenStore with IndexBitSize(N)
 //	iter                  whole-store iteration
-//	crash                 (sthdrive) cut a crash image inside the next flush
+//	crash N               (sthdrive) cut a crash image inside the next flush after N mod (records+1) index records
+//	pgcb LOWUSE BUDGET    primary GC cycle whose context fails after BUDGET successful ctx.Err() polls
+//	igcb SCANFREE BUDGET  the same for an index GC cycle
+//	at POINT put K V      run the inner operation inline at yield point POINT of the next operation
+//	missize               Close; opens with other file-size limits must be refused; reopen
 //
 // Lines starting with '#' are comments.
 package hist
@@ -32,10 +36,13 @@ type Config struct {
 }
 
 type Op struct {
-	Kind string
-	Key  []byte
-	Val  []byte
-	N    int64
+	Kind  string
+	Key   []byte
+	Val   []byte
+	N     int64
+	B     int64
+	Point string
+	Inner string
 }
 
 type History struct {
@@ -114,9 +121,48 @@ func Parse(path string) (*History, error) {
 				return nil, bad(err)
 			}
 			h.Ops = append(h.Ops, Op{Kind: fs[0], Key: k})
-		case "flush", "iter", "crash", "close":
+		case "flush", "iter", "close", "missize":
 			h.Ops = append(h.Ops, Op{Kind: fs[0]})
-		case "igc", "pgc", "reopen", "rebits":
+		case "pgcb", "igcb":
+			// budgeted GC cycle: pgcb LOWUSE BUDGET / igcb SCANFREE BUDGET (BUDGET = number of ctx.Err() polls that succeed)
+			if len(fs) != 3 {
+				return nil, bad(fs[0] + " needs two numbers")
+			}
+			n, err := strconv.ParseInt(fs[1], 10, 64)
+			if err != nil {
+				return nil, bad(err)
+			}
+			b, err := strconv.ParseInt(fs[2], 10, 64)
+			if err != nil {
+				return nil, bad(err)
+			}
+			h.Ops = append(h.Ops, Op{Kind: fs[0], N: n, B: b})
+		case "at":
+			// at YIELDPOINT <put|remove|get ...> : run the inner operation inline at that yield point of the NEXT operation
+			if len(fs) < 4 {
+				return nil, bad("at needs a yield point and an operation")
+			}
+			k, err := hex.DecodeString(fs[3])
+			if err != nil {
+				return nil, bad(err)
+			}
+			op := Op{Kind: "at", Point: fs[1], Inner: fs[2], Key: k}
+			if fs[2] == "put" {
+				if len(fs) != 5 {
+					return nil, bad("at ... put needs key and value")
+				}
+				switch fs[4] {
+				case "nil":
+				case "-":
+					op.Val = []byte{}
+				default:
+					if op.Val, err = hex.DecodeString(fs[4]); err != nil {
+						return nil, bad(err)
+					}
+				}
+			}
+			h.Ops = append(h.Ops, op)
+		case "igc", "pgc", "reopen", "rebits", "crash":
 			if len(fs) != 2 {
 				return nil, bad(fs[0] + " needs a number")
 			}
